@@ -29,8 +29,12 @@ ASSUMPTIONS = [
 ]
 MANIFEST_ENTRY = {
     'technique': 'Hypothesis over decoder setups with batches decoded on a '
-                 'reused decoder object + enumerated small-code batches; '
-                 'oracle = own syndrome computation H Omega c == s',
+                 'reused decoder object + enumerated small-code batches and an '
+                 'enumerated BP-OSD corner grid (rate end points as float and '
+                 'int, simplex vertices / edges, Bayes update); the '
+                 'command-line BP-OSD options run in an interpreter of their '
+                 'own (a dead interpreter is a violation); oracle = own '
+                 'syndrome computation H Omega c == s',
     'level_text': 'Every returned correction is checked for format and, for '
                   'the complete decoders, for reproducing the measured '
                   'syndrome exactly (own algebra), on reused decoder objects '
